@@ -218,9 +218,38 @@ func c15Build(r *rand.Rand, paths []string, edges map[string][]string, fancy boo
 	return t
 }
 
+var c15TreeN int
+
 func c15RunTree(c *Ctx, t *c15Tree, id string) ([]map[string]any, string) {
 	files := t.files()
-	res := runProgram(files, "main", "", 0, true, 200000)
+	arg := "main"
+	// entry by file: every third tree whose main package is one file with an import is loaded as a script file that lies
+	// (excluded by //go:build ignore) in the directory of the first package it imports
+	c15TreeN++
+	if c15TreeN%3 == 0 && !t.Conflict {
+		var mainPkg, dep *c15Pkg
+		for _, p := range t.Pkgs {
+			if p.Path == "main" {
+				mainPkg = p
+			}
+		}
+		if mainPkg != nil && len(mainPkg.Files) == 1 && len(mainPkg.Imports) > 0 && mainPkg.Files[0].Header == "" {
+			for _, p := range t.Pkgs {
+				if p.Path == mainPkg.Imports[0] && p.Path != "main" {
+					dep = p
+				}
+			}
+		}
+		if dep != nil {
+			old := "main/" + mainPkg.Files[0].Name
+			if src, ok := files[old]; ok {
+				delete(files, old)
+				arg = dep.Dir + "/zz_demo.go"
+				files[arg] = "//go:build ignore\n\n" + src
+			}
+		}
+	}
+	res := runProgram(files, arg, "", 0, true, 200000)
 	lines := []map[string]any{t.graphLine(id)}
 	for _, ln := range strings.Split(res.Stdout, "\n") {
 		if ln == "" {
